@@ -59,6 +59,15 @@ func main() {
 		}
 	case "calltree":
 		cmdCallTree(os.Args[2])
+	case "locals":
+		// prints the table of parameters and named locals of every function under contract (locals.go)
+		P, err := vc.Load("/repo", "/verif/engine/externals")
+		if err != nil {
+			fmt.Fprintln(os.Stderr, err)
+			os.Exit(2)
+		}
+		data, _ := json.MarshalIndent(P.LocalsTable(), "", " ")
+		fmt.Println(string(data))
 	case "product":
 		// prints the generated lockstep products (what the relational obligations are generated from)
 		repo := "/repo"
